@@ -2,6 +2,8 @@ package nc
 
 import (
 	"fmt"
+	"go/token"
+	"go/types"
 	"sort"
 	"strings"
 
@@ -26,7 +28,7 @@ func isZeroTerm(t *Term) bool {
 
 // C13 — flushing makes a network indistinguishable from a fresh one.
 func C13(p *Prog, r *Run) {
-	r.Explanation = "Observational equivalence after a flush is not decidable statically; decided is reset completeness, the only mechanism that can break it: let RT(T) be the fields (or slice-field elements) of T written by any function reachable over the call graph from the activation API, and RS(T) those reset to their initial value by Flush. (1) RT(NNode) ⊆ RS(NNode) ∪ {ActivationSum}, where ActivationSum is exempt for the checked reason that it is zero-stored in the sweep before it is accumulated or read, and Network.Flush applies Flushback to every element of the node list the sweeps iterate; the isActive flag of control nodes (written by the sweep, not visited by Flush) is exempt for the checked reason that it is never read for a control node. (2) RT(FastModularNetworkSolver) ⊆ RS ∪ {activated, inActivation, lastActivation}, exempt because RecursiveSteps re-initialises them for every index before any read; the reset loop covers [biasNeuronCount, totalNeuronCount) so that bias signals keep their 1. Not decided: equality of outputs of (history; Flush; sequence) and (sequence) itself."
+	r.Explanation = "Observational equivalence after a flush is not decidable statically; decided is reset completeness, the only mechanism that can break it: let RT(T) be the fields (or slice-field elements) of T written by any function reachable over the call graph from the activation API, and RS(T) those reset to their initial value by Flush. (1) RT(NNode) ⊆ RS(NNode) ∪ {ActivationSum}, where ActivationSum is exempt for the checked reason that it is zero-stored in the sweep before it is accumulated or read, and Network.Flush applies Flushback to every element of the node list the sweeps iterate; the isActive flag of control nodes (written by the sweep, not visited by Flush) is exempt for the checked reason that it is never read for a control node. (2) RT(FastModularNetworkSolver) ⊆ RS ∪ {activated, inActivation, lastActivation}, exempt because RecursiveSteps re-initialises them for every index before any read; the reset loop covers [biasNeuronCount, totalNeuronCount) so that bias signals keep their 1. (3) Fresh state = flushed state: per index range of the solver's neuron layout ([0,biasNeuronCount), [biasNeuronCount,sensorNeuronCount), [sensorNeuronCount,totalNeuronCount)) the value Flush leaves in an array equals the value the constructor leaves there (replay of both functions' array writes: make, counted loops evaluated per range, copy, replayed methods), so an initial value that is not zero (bias signals, pre-armed accumulators, 'activated' marks of sensors) is restored and not erased; for nodes, no function outside the activation API and the flush stores a non-zero value into a field that an activation writes, so a new node holds what Flushback restores. Not decided: equality of outputs of (history; Flush; sequence) and (sequence) itself."
 	api := []string{"Network.ActivateSteps", "Network.Activate", "Network.ForwardSteps", "Network.RecursiveSteps", "Network.Relax", "Network.LoadSensors",
 		"Network.MaxActivationDepth", "Network.MaxActivationDepthWithCap", "NNode.Depth", "ActivateNode", "ActivateModule"}
 	fastAPI := []string{"FastModularNetworkSolver.ForwardSteps", "FastModularNetworkSolver.RecursiveSteps", "FastModularNetworkSolver.Relax", "FastModularNetworkSolver.LoadSensors"}
@@ -57,6 +59,25 @@ func C13(p *Prog, r *Run) {
 					}
 				}
 			}
+			// copy(x.F[a:b], ...) writes elements of F as well
+			Instrs(f, func(_ *ssa.BasicBlock, _ int, in ssa.Instruction) {
+				ci, isCall := in.(ssa.CallInstruction)
+				if !isCall {
+					return
+				}
+				if b, isB := ci.Common().Value.(*ssa.Builtin); !isB || b.Name() != "copy" || len(ci.Common().Args) != 2 {
+					return
+				}
+				fld := c13SliceField(ci.Common().Args[0])
+				if fld == nil {
+					return
+				}
+				for _, cand := range p.Fields(PkgN, owner) {
+					if cand == fld {
+						out[fld.Name()+"[*]"] = append(out[fld.Name()+"[*]"], Effect{Fn: f, Instr: in, Kind: "copy", Addr: ci.Common().Args[0], Val: ci.Common().Args[1]})
+					}
+				}
+			})
 		}
 		return out, re
 	}
@@ -96,6 +117,71 @@ func C13(p *Prog, r *Run) {
 			}
 		}
 		r.Floor("run-time NNode fields", len(names), 6)
+		// fresh = flushed: outside the activation API and the flush itself nobody gives a run-time field a value
+		// other than the one Flushback restores (constructors, composite literals, genome-to-network code included)
+		{
+			flushReach := p.Reachable([]*ssa.Function{flushback, flush}, nil)
+			// the fields the activation itself writes (the loop-detection mark `visited` of the pure topology queries is
+			// scratch that every query sets and clears; it is not part of what an activation leaves behind)
+			depthFns := map[string]bool{"MaxActivationDepth": true, "MaxActivationDepthWithCap": true, "Depth": true, "maxActivationDepthFast": true}
+			var actRoots []*ssa.Function
+			for _, n := range []string{"Network.ActivateSteps", "Network.Activate", "Network.ForwardSteps", "Network.RecursiveSteps", "Network.Relax", "Network.LoadSensors", "ActivateNode", "ActivateModule"} {
+				actRoots = append(actRoots, p.Func(PkgN, n))
+			}
+			act := map[string]bool{}
+			for _, f := range p.Reachable(actRoots, func(f *ssa.Function) bool { return depthFns[f.Name()] }).RepoFuncs() {
+				if depthFns[f.Name()] {
+					continue
+				}
+				for _, e := range Writes(f) {
+					if e.Kind == "field" && e.Owner != nil && e.Owner.Obj().Name() == "NNode" {
+						act[e.Field.Name()] = true
+					}
+				}
+			}
+			badW, nW := "", 0
+			pinned := PinnedFuncs()
+			cg := p.CallGraph()
+			for _, f := range p.SrcFuncs() {
+				if _, isAPI := re.Funcs[f]; isAPI {
+					continue
+				}
+				// a helper that a refactoring introduced and that the normaliser inlined at all its call sites has no
+				// caller left: its body is seen where it was inlined
+				top := f
+				for top.Parent() != nil {
+					top = top.Parent()
+				}
+				if obj, isFn := top.Object().(*types.Func); isFn && !pinned[obj.FullName()] {
+					if n := cg.Nodes[top]; n == nil || len(n.In) == 0 {
+						continue
+					}
+				}
+				if _, isFlush := flushReach.Funcs[f]; isFlush {
+					continue
+				}
+				var tf *Termer
+				for _, e := range Writes(f) {
+					if e.Kind != "field" || e.Owner == nil || e.Owner.Obj().Name() != "NNode" || e.Owner.Obj().Pkg() == nil || e.Owner.Obj().Pkg().Path() != PkgN {
+						continue
+					}
+					if !act[e.Field.Name()] {
+						continue
+					}
+					if tf == nil {
+						tf = NewTermer(f)
+					}
+					nW++
+					if v := tf.Of(e.Val); !isZeroTerm(v) && badW == "" {
+						badW = fmt.Sprintf("%s sets NNode.%s to %s at %s", FuncName(f), e.Field.Name(), v, p.Pos(e.Instr.Pos()))
+					}
+				}
+			}
+			r.Floor("NNode fields written by an activation", len(act), 5)
+			r.Check(badW == "", "NNode.fresh=flushed", p.Pos(flushback.Pos()),
+				fmt.Sprintf("no function outside the activation API and the flush gives a run-time field of NNode a non-zero value (%d zero store(s) elsewhere): a new node holds exactly what Flushback restores", nW),
+				badW+": the function is neither reachable from the activation API nor part of the flush, so a node starts its life (or is handed to the network) with a value of this run-time field that Flushback does not restore - a flushed network differs from a freshly built one")
+		}
 		// Flush visits every element of the list the sweeps iterate
 		tm := NewTermer(flush)
 		cs := CallsTo(flush, flushback)
@@ -119,6 +205,54 @@ func C13(p *Prog, r *Run) {
 				w := returnsBypassing(p, flush, l)
 				r.Check(w == "", "Flush.unconditional", p.Pos(flush.Pos()), "every return of Flush lies inside or after the loop over the nodes", "Network.Flush can return at "+w+" without visiting the nodes: whatever condition is tested there, run-time state written by an earlier (possibly failed or partial) activation survives the flush")
 			}
+		}
+		// leaving the loop after a node has been flushed: only because that node failed a check, and the check cannot
+		// fail for a node that Flushback has just reset - otherwise the nodes behind it keep their state
+		fbc := p.FuncOpt(PkgN, "NNode.FlushbackCheck")
+		for _, c := range cs {
+			l := InnermostLoop(Loops(flush), c.Block())
+			if l == nil {
+				continue
+			}
+			nodeTerm := tm.Of(c.Common().Args[0]).String()
+			isNode := func(v ssa.Value) bool { return tm.Of(v).String() == nodeTerm }
+			badExit, nExits := "", 0
+			for _, a := range flush.Blocks {
+				if !l.Blocks[a] || !(a == c.Block() || c.Block().Dominates(a)) {
+					continue
+				}
+				for _, b := range a.Succs {
+					if l.Blocks[b] {
+						continue
+					}
+					nExits++
+					ok := false
+					for _, g := range condsAt(a, b) {
+						if x, y, op, isCmp := CmpFact(g.Cond, g.True); isCmp && op == token.NEQ && fbc != nil {
+							if k, isK := y.(*ssa.Const); isK && k.Value == nil && tm.Of(x).Has(func(t *Term) bool { return t.Op == "call" && t.Name == "NNode.FlushbackCheck" }) {
+								ok = true
+							}
+						}
+						if (g.At == c.Block() || c.Block().Dominates(g.At)) && c13DeadAfterReset(g, isNode, rs) {
+							ok = true
+						}
+					}
+					if !ok && badExit == "" {
+						badExit = p.Pos(a.Instrs[len(a.Instrs)-1].Pos())
+						if badExit == "" || badExit == "-" {
+							badExit = p.Pos(c.Pos())
+						}
+					}
+				}
+			}
+			r.Check(badExit == "", "Flush.exits", p.Pos(flush.Pos()), fmt.Sprintf("the node loop is left early at %d place(s), each time only when the check of the node just flushed fails", nExits),
+				"Network.Flush leaves the loop over the nodes at "+badExit+" after flushing a node, and not because that node failed FlushbackCheck: the nodes behind it keep the state of the previous activations")
+		}
+		if fbc != nil && len(CallsTo(flush, fbc)) > 0 {
+			r.Fn(FuncName(fbc))
+			live := c13LiveErrorReturns(p, fbc, rs)
+			r.Check(len(live) == 0, "FlushbackCheck.passes-after-Flushback", p.Pos(fbc.Pos()), "every error return of FlushbackCheck is guarded by a test of a field that Flushback has just zeroed, which fails for zero: the early exit of Network.Flush is dead",
+				"FlushbackCheck can report an error at "+strings.Join(live, ", ")+" for a node that Flushback has just reset (the return is not guarded by a test of a reset field that is false for the reset value): Network.Flush then stops at the first node and leaves all nodes behind it unflushed")
 		}
 		// the sweeps iterate allNodes (and controlNodes for modules)
 		as := p.Func(PkgN, "Network.ActivateSteps")
@@ -257,53 +391,7 @@ func C13(p *Prog, r *Run) {
 			}
 		}
 		// exemptions re-verified in RecursiveSteps
-		rsteps := p.Func(PkgN, "FastModularNetworkSolver.RecursiveSteps")
-		tr := NewTermer(rsteps)
-		reinit := map[string]bool{}
-		var initLoop *Loop
-		for _, e := range Writes(rsteps) {
-			if e.Kind == "elem" {
-				if f := ElemOwner(e); f != nil {
-					l := InnermostLoop(Loops(rsteps), e.Instr.Block())
-					if l != nil {
-						b, _, ok := loopCounter(l, tr)
-						full := ok && b.String() == "recv.totalNeuronCount"
-						if !full {
-							// the same fact for other loop forms: counter enters with 0, +1 per iteration, single exit at !(i < totalNeuronCount)
-							if cl, okc := c13CountedLoopOf(l); okc && tr.Of(cl.Bound).String() == "recv.totalNeuronCount" {
-								full = true
-								for _, v := range cl.Inits {
-									if k, isK := constInt(v); !isK || k != 0 {
-										full = false
-									}
-								}
-							}
-						}
-						if full {
-							reinit[f.Name()+"[*]"] = true
-							initLoop = l
-						}
-					}
-				}
-			}
-		}
-		// the re-initialisation loop precedes every recursive activation
-		initFirst := false
-		if initLoop != nil {
-			initFirst = true
-			for _, c := range CallsTo(rsteps, p.Func(PkgN, "FastModularNetworkSolver.recursiveActivateNode")) {
-				// the loop's exit block must dominate the call
-				dom := false
-				for _, s := range initLoop.Header.Succs {
-					if !initLoop.Blocks[s] && (s == c.Block() || s.Dominates(c.Block())) {
-						dom = true
-					}
-				}
-				if !dom {
-					initFirst = false
-				}
-			}
-		}
+		reinit, initFirst := c13RecursiveScratch(p)
 		var names []string
 		for k := range rt {
 			names = append(names, k)
@@ -318,6 +406,9 @@ func C13(p *Prog, r *Run) {
 				r.OK("Fast."+f, p.Pos(e.Instr.Pos()), "run-time array ("+where+") is reset by Flush")
 			case reinit[f] && initFirst && (f == "activated[*]" || f == "inActivation[*]" || f == "lastActivation[*]"):
 				r.OK("Fast."+f, p.Pos(e.Instr.Pos()), "scratch array of the recursive activation: re-initialised for every index at the top of RecursiveSteps before any read")
+			case c13FlushRestores(p, []string{strings.TrimSuffix(f, "[*]")}, false) == "":
+				// reset to an initial value that is not zero: over the input, output and hidden neurons Flush stores what the constructor stores
+				r.OK("Fast."+f, p.Pos(e.Instr.Pos()), "run-time array ("+where+") is reset by Flush to the values the constructor gives it")
 			default:
 				r.Bad("Fast."+f, p.Pos(e.Instr.Pos()), "FastModularNetworkSolver."+f+" is run-time state ("+where+") but Flush does not reset it and it is not re-initialised before use")
 			}
@@ -385,9 +476,204 @@ func C13(p *Prog, r *Run) {
 				}
 			}
 		}
+		if !okAll {
+			// the same fact for any other spelling of the reset (range loops, guards on the counter inside the body,
+			// len() of an array as bound, several loops): evaluated per index range of the neuron layout
+			var zeroed []string
+			for k := range rs {
+				zeroed = append(zeroed, strings.TrimSuffix(k, "[*]"))
+			}
+			sort.Strings(zeroed)
+			if strayReset == "" && len(zeroed) > 0 && c13FlushCoversNonBias(p, zeroed) == "" {
+				okAll = true
+			}
+		}
 		r.Check(okAll, "Fast.Flush.bounds", p.Pos(flush.Pos()), "reset loop covers [biasNeuronCount, totalNeuronCount)",
 			why+"; it must cover exactly the non-bias neurons [biasNeuronCount, totalNeuronCount): a later start leaves input/output/hidden state behind, an earlier one erases the bias signals")
 	})
+	r.Rule("C13.4", "a flushed fast solver is in the constructor's state: over each index range of the neuron layout ([0,biasNeuronCount) bias, [biasNeuronCount,sensorNeuronCount) inputs, [sensorNeuronCount,totalNeuronCount) outputs and hidden) every element of a solver array that Flush writes ends up with the value the constructor leaves there (zero from make unless the constructor stores something else) - unless RecursiveSteps re-initialises the array for every index before any read. If Flush leaves another value, the first activation after a flush starts from other contents than the first activation of a new solver, and whatever reads the element before overwriting it (accumulators that are added to, 'activated' marks that are tested) computes other outputs", func() {
+		owner := p.Named(PkgN, "FastModularNetworkSolver")
+		flush := p.Func(PkgN, "FastModularNetworkSolver.Flush")
+		ctors := c13SolverCtors(p, owner)
+		if len(ctors) == 0 {
+			r.Bad("Fast.fresh-state.constructor", p.Pos(flush.Pos()), "no function of neat/network allocates and returns a FastModularNetworkSolver: the state of a freshly built solver cannot be established")
+			return
+		}
+		rt, _ := collect(fastAPI, "FastModularNetworkSolver")
+		m := newC13Model(p, owner)
+		for _, fld := range p.Fields(PkgN, "FastModularNetworkSolver") {
+			if _, isRT := rt[fld.Name()+"[*]"]; isRT {
+				m.state[fld] = true
+			}
+		}
+		for _, c := range ctors {
+			m.learnCtor(c)
+			r.Fn(FuncName(c))
+		}
+		r.Fn(FuncName(flush))
+		fl := m.final(flush, false)
+		reinit, initFirst := c13RecursiveScratch(p)
+		var arrs []*types.Var
+		for f := range fl {
+			arrs = append(arrs, f)
+		}
+		sort.Slice(arrs, func(i, j int) bool { return arrs[i].Name() < arrs[j].Name() })
+		n := 0
+		for _, c := range ctors {
+			cs := m.final(c, true)
+			for _, f := range arrs {
+				name := "Fast.fresh-state:" + f.Name()
+				if len(ctors) > 1 {
+					name += "@" + c.Name()
+				}
+				n++
+				r.FieldsChecked++
+				key := f.Name() + "[*]"
+				if reinit[key] && initFirst && (key == "activated[*]" || key == "inActivation[*]" || key == "lastActivation[*]") {
+					r.OK(name, p.Pos(flush.Pos()), "scratch array of the recursive activation: re-initialised for every index at the top of RecursiveSteps before any read, so what Flush leaves in it is never seen")
+					continue
+				}
+				why, okText := "", []string{}
+				for k := 0; k < c13NSeg && why == ""; k++ {
+					fe := fl[f][k]
+					var ce c13Eff
+					if cs[f] != nil {
+						ce = cs[f][k]
+					} else {
+						ce = c13Eff{Kind: 2, Val: c.Name() + " does not allocate the array"}
+					}
+					switch {
+					case fe.Kind == 0 && k == c13NSeg-1:
+					case k == c13NSeg-1:
+						why = "Flush may write " + f.Name() + "[i] for i in " + c13SegName(k) + ", behind the last neuron: " + fe.Val
+					case fe.Kind == 0:
+						okText = append(okText, c13SegName(k)+" untouched")
+					case fe.Kind == 2:
+						why = "what Flush leaves in " + f.Name() + "[i] for i in " + c13SegName(k) + " cannot be established: " + fe.Val
+					case ce.Kind != 1:
+						why = "what " + c.Name() + " leaves in " + f.Name() + "[i] for i in " + c13SegName(k) + " cannot be established: " + ce.Val
+					case ce.Val != fe.Val:
+						why = fmt.Sprintf("for i in %s Flush leaves %s[i] = %s but %s leaves %s[i] = %s", c13SegName(k), f.Name(), c13ShowVal(fe.Val), c.Name(), f.Name(), c13ShowVal(ce.Val))
+					default:
+						okText = append(okText, c13SegName(k)+" = "+c13ShowVal(fe.Val))
+					}
+				}
+				r.Check(why == "", name, p.Pos(flush.Pos()), "Flush leaves what "+c.Name()+" leaves: "+strings.Join(okText, ", "),
+					why+": a flushed solver is not in the state of a freshly built one, and the array is not re-initialised for every index before it is read")
+			}
+		}
+		r.Floor("solver arrays written by Flush", n, 2)
+		// the constructor alone defines the fresh state: nobody else (a factory that prepares the solver after building
+		// it, a setter) writes a run-time array or an array that Flush writes
+		_, apiReach := collect(fastAPI, "FastModularNetworkSolver")
+		flushReach := p.Reachable([]*ssa.Function{flush}, nil)
+		isCtor := map[*ssa.Function]bool{}
+		for _, c := range ctors {
+			isCtor[c] = true
+		}
+		watched := map[*types.Var]bool{}
+		for f := range m.state {
+			watched[f] = true
+		}
+		for f := range fl {
+			watched[f] = true
+		}
+		pinned := PinnedFuncs()
+		cg := p.CallGraph()
+		other := ""
+		for _, f := range p.SrcFuncs() {
+			top := f
+			for top.Parent() != nil {
+				top = top.Parent()
+			}
+			if _, isAPI := apiReach.Funcs[f]; isAPI || isCtor[top] {
+				continue
+			}
+			if _, isFlush := flushReach.Funcs[f]; isFlush {
+				continue
+			}
+			if obj, isFn := top.Object().(*types.Func); isFn && !pinned[obj.FullName()] {
+				if nd := cg.Nodes[top]; nd == nil || len(nd.In) == 0 {
+					continue // inlined at its call sites by the normaliser
+				}
+			}
+			Instrs(f, func(_ *ssa.BasicBlock, _ int, in ssa.Instruction) {
+				var fld *types.Var
+				switch x := in.(type) {
+				case *ssa.Store:
+					switch a := x.Addr.(type) {
+					case *ssa.IndexAddr:
+						fld = c13SliceField(a.X)
+					case *ssa.FieldAddr:
+						fld = fieldOf(a.X.Type(), a.Field)
+					}
+				case ssa.CallInstruction:
+					if b, isB := x.Common().Value.(*ssa.Builtin); isB && b.Name() == "copy" && len(x.Common().Args) == 2 {
+						fld = c13SliceField(x.Common().Args[0])
+					}
+				}
+				if fld != nil && watched[fld] && other == "" {
+					other = fmt.Sprintf("%s writes %s at %s", FuncName(f), fld.Name(), p.Pos(in.Pos()))
+				}
+			})
+		}
+		r.Check(other == "", "Fast.fresh-state.writers", p.Pos(flush.Pos()), "the run-time arrays of the solver are written only by the constructor, the activation API and Flush",
+			other+": the function is neither the constructor, nor reachable from the activation API, nor part of Flush, so a solver handed out by it is in a state the comparison of constructor and Flush does not cover")
+	})
+}
+
+// c13RecursiveScratch re-verifies the exemption of the recursive activation's scratch arrays: reinit names the arrays
+// that RecursiveSteps stores into inside a loop over [0, totalNeuronCount); initFirst says that this loop is left
+// before any call of recursiveActivateNode.
+func c13RecursiveScratch(p *Prog) (reinit map[string]bool, initFirst bool) {
+	rsteps := p.Func(PkgN, "FastModularNetworkSolver.RecursiveSteps")
+	tr := NewTermer(rsteps)
+	reinit = map[string]bool{}
+	var initLoop *Loop
+	for _, e := range Writes(rsteps) {
+		if e.Kind == "elem" {
+			if f := ElemOwner(e); f != nil {
+				l := InnermostLoop(Loops(rsteps), e.Instr.Block())
+				if l != nil {
+					b, _, ok := loopCounter(l, tr)
+					full := ok && b.String() == "recv.totalNeuronCount"
+					if !full {
+						// the same fact for other loop forms: counter enters with 0, +1 per iteration, single exit at !(i < totalNeuronCount)
+						if cl, okc := c13CountedLoopOf(l); okc && tr.Of(cl.Bound).String() == "recv.totalNeuronCount" {
+							full = true
+							for _, v := range cl.Inits {
+								if k, isK := constInt(v); !isK || k != 0 {
+									full = false
+								}
+							}
+						}
+					}
+					if full {
+						reinit[f.Name()+"[*]"] = true
+						initLoop = l
+					}
+				}
+			}
+		}
+	}
+	// the re-initialisation loop precedes every recursive activation
+	initFirst = false
+	if initLoop != nil {
+		initFirst = true
+		for _, c := range CallsTo(rsteps, p.Func(PkgN, "FastModularNetworkSolver.recursiveActivateNode")) {
+			// the loop's exit block must dominate the call
+			dom := false
+			for _, s := range initLoop.Header.Succs {
+				if !initLoop.Blocks[s] && (s == c.Block() || s.Dominates(c.Block())) {
+					dom = true
+				}
+			}
+			if !dom {
+				initFirst = false
+			}
+		}
+	}
+	return reinit, initFirst
 }
 
 // loopCounterFrom is loopCounter for loops that start at an arbitrary value.
